@@ -273,8 +273,10 @@ NoGraphics(toks) == \A i \in DOMAIN toks : toks[i].k \notin {"kitty", "iterm"}
 ApplyX(T, t, gfx) ==
   IF t.k \in {"sm", "rm"} /\ t.n = 4 THEN [T EXCEPT !.ntok = @ + 1] ELSE Apply(T, t, gfx)
 
-RECURSIVE Fold(_, _, _, _)
-Fold(T, toks, gfx, i) == IF i > Len(toks) THEN T ELSE Fold(TLCEval(ApplyX(T, toks[i], gfx)), toks, gfx, i + 1)
+\* left fold of the token list (SequencesExt!FoldLeft is evaluated iteratively by TLC: no recursion
+\* depth proportional to the length of the output); the last argument is kept for readability
+SeqX == INSTANCE SequencesExt
+Fold(T, toks, gfx, i) == SeqX!FoldLeft(LAMBDA acc, t : ApplyX(acc, t, gfx), T, toks)
 
 (* ----------------------------------------------------- z-index allocator *)
 
